@@ -38,6 +38,9 @@ type Cfg struct {
 	QDurMs   int      `json:"qdur"`
 	// OnError: an error handler is set on the service (which has no logger)
 	OnError bool `json:"onerror,omitempty"`
+	// EarlyLookups: every resource id of the case is looked up (Resource, With) while the
+	// handlers are being registered: before the mounts, and between them.
+	EarlyLookups bool `json:"earlyLookups,omitempty"`
 }
 
 // Case is a full schedule case.
@@ -124,7 +127,9 @@ var allRIDs = []string{"svc.r.1", "svc.r.2", "svc.s.1", "svc.s.2", "svc.t.a.1", 
 	// placeholder values outside the usual alphabet: still resources of their patterns
 	"svc.r.åsa", "svc.r.$q", "svc.t.a.*", "svc.x.a.1", "svc.x.b.1",
 	// no handler: the service name glued to further characters
-	"svcx.r.1", "svc_r.1", "svc"}
+	"svcx.r.1", "svc_r.1", "svc",
+	// served by a mux that is mounted as the very last registration step
+	"svc.z.1", "svc.z.2"}
 
 func (m *machine) viol(prop, format string, a ...interface{}) {
 	m.mu.Lock()
@@ -300,6 +305,16 @@ func (m *machine) build() {
 	s.Handle("s.$id", opts(res.Group("shared"))...)
 	s.Handle("t.$tag.$id", opts(res.Group("tg.${tag}"))...)
 	s.Handle("p.$id", opts(res.Parallel(true))...)
+	lookups := func() {
+		if !m.c.Cfg.EarlyLookups {
+			return
+		}
+		for _, rid := range allRIDs {
+			_, _ = s.Resource(rid)
+			_ = s.With(rid, func(res.Resource) {})
+		}
+	}
+	lookups()
 	sub := res.NewMux("")
 	sub.Handle("$id", opts(res.Group("mm.${id}"))...)
 	// a full-wildcard pattern inside the mounted mux whose group template is shared with t.$tag.$id
@@ -309,7 +324,9 @@ func (m *machine) build() {
 	sub2.Handle("$tag.$id", opts(res.Group("${tag}"))...)
 	sub2.Handle("k.$id.$tag", opts(res.Group("${tag}"))...) // the tag is the last token
 	sub.Mount("n", sub2)
+	lookups()
 	s.Mount("m", sub)
+	lookups()
 	// registered through the parent after mounting: default group, and a ${tag} group
 	s.Handle("m.fixed", opts()...)
 	s.Handle("m.q.$id", opts(res.Group("mm.${id}"))...)
@@ -320,8 +337,14 @@ func (m *machine) build() {
 	s.Handle("$a.$b.$c", opts(res.Group("${a}"))...)
 	// the resource named like the service (root pattern), default group
 	s.Handle("", opts()...)
+	// a mux mounted last of all, after every resource id has been looked up once more
+	subz := res.NewMux("")
+	subz.Handle("$id", opts()...)
+	lookups()
+	s.Mount("z", subz)
 	m.entries = []refmux.Entry{
 		{Pattern: "svc", Marker: 11},
+		{Pattern: "svc.z.$id", Marker: 14},
 		{Pattern: "svc.u.$itemType.$item", Marker: 8, Group: "it.${item}"},
 		{Pattern: "svc.r.1.deep", Marker: 9},
 		{Pattern: "svc.$a.$b.$c", Marker: 10, Group: "${a}"},
